@@ -157,6 +157,101 @@ theorem scp_sink_confined (recs : List RawRec) :
   obtain ⟨h1, h2⟩ := sink_confined_aux recs [] (by simp) path hp
   exact ⟨h1, fun c hc => scpNameOk_safe c (h2 c hc)⟩
 
+theorem sinkO_confined_aux (recs : List RawRec) (stack : List (Option Bytes))
+    (hs : ∀ c, some c ∈ stack → scpNameOk c = true) :
+    ∀ path ∈ sinkO (recs.map classifyRec) stack, ∀ c ∈ path, scpNameOk c = true := by
+  have hpre : ∀ (st : List (Option Bytes)), (∀ c, some c ∈ st → scpNameOk c = true) →
+      ∀ c ∈ st.reverse.filterMap id, scpNameOk c = true := by
+    intro st h c hc
+    simp only [List.mem_filterMap, List.mem_reverse, id] at hc
+    obtain ⟨a, ha, rfl⟩ := hc
+    exact h c ha
+  induction recs generalizing stack with
+  | nil => simp [sinkO]
+  | cons r rs ih =>
+    cases r with
+    | cd d n =>
+      simp only [List.map_cons, classifyRec, classify]
+      by_cases hn : scpNameOk n = true
+      · simp only [hn, if_true]
+        cases d
+        · simp only [Bool.false_eq_true, if_false, sinkO]
+          intro path hp
+          simp only [List.mem_cons] at hp
+          rcases hp with rfl | hp
+          · intro c hc
+            simp only [List.mem_append, List.mem_singleton] at hc
+            rcases hc with hc | rfl
+            · exact hpre stack hs c hc
+            · exact hn
+          · exact ih stack hs path hp
+        · simp only [if_true, sinkO]
+          intro path hp
+          simp only [List.mem_cons] at hp
+          rcases hp with rfl | hp
+          · intro c hc
+            simp only [List.mem_append, List.mem_singleton] at hc
+            rcases hc with hc | rfl
+            · exact hpre stack hs c hc
+            · exact hn
+          · refine ih (some n :: stack) ?_ path hp
+            intro c hc
+            simp only [List.mem_cons, Option.some.injEq] at hc
+            rcases hc with rfl | hc
+            · exact hn
+            · exact hs c hc
+      · simp only [hn]
+        exact ih stack hs
+    | e =>
+      simp only [List.map_cons, classifyRec, sinkO]
+      cases stack with
+      | nil => simp
+      | cons s up =>
+        simp only
+        exact ih up (fun c hc => hs c (by simp [hc]))
+    | t =>
+      simp only [List.map_cons, classifyRec, sinkO]
+      exact ih stack hs
+
+/-- **… also when the destination path does not exist yet or is a file** (`scp -r host:tree newname`): the first
+    'D' record creates the destination itself and its name is dropped, so one level of the sink's directory stack
+    carries no path component; still every path written is the destination itself (`[]`) or a list of components
+    below it, none of them `..` or containing `/`, for every record sequence. -/
+theorem scp_sink_new_destination_confined (recs : List RawRec) (isFile : Bool) :
+    ∀ path ∈ sinkNew (recs.map classifyRec) isFile, ∀ c ∈ path, c ≠ dotdot ∧ slash ∉ c := by
+  induction recs generalizing isFile with
+  | nil => simp [sinkNew]
+  | cons r rs ih =>
+    cases r with
+    | cd d n =>
+      simp only [List.map_cons, classifyRec, classify]
+      by_cases hn : scpNameOk n = true
+      · simp only [hn, if_true]
+        cases d
+        · simp only [Bool.false_eq_true, if_false, sinkNew]
+          intro path hp
+          simp only [List.mem_cons] at hp
+          rcases hp with rfl | hp
+          · intro c hc; cases hc
+          · exact ih true path hp
+        · cases isFile
+          · simp only [if_true, sinkNew]
+            intro path hp
+            simp only [List.mem_cons] at hp
+            rcases hp with rfl | hp
+            · intro c hc; cases hc
+            · intro c hc
+              have := sinkO_confined_aux rs [none] (by intro c hc; simp at hc) path hp c hc
+              exact scpNameOk_safe c this
+          · simp only [if_true, sinkNew]
+            exact ih true
+      · simp only [hn, Bool.false_eq_true, if_false, sinkNew]
+        exact ih isFile
+    | e => simp [classifyRec, sinkNew]
+    | t =>
+      simp only [List.map_cons, classifyRec, sinkNew]
+      exact ih isFile
+
 /-! ### recursive SFTP get -/
 
 theorem getName_use_safe (n : Bytes) (h : getNameVerdict n = .use) :
